@@ -280,7 +280,7 @@ func (c *Ctx) SyncOption(prop string) {
 			}
 		}
 	}
-	c.R.Floor(rule, "badger.Open sites", n, 2)
+	c.R.Floor(rule, "badger.Open sites", n, 1)
 	// the constructor's path comes from configuration in main (storage-path)
 	s := c.Slashing(rule)
 	if s.OK() {
